@@ -85,6 +85,10 @@ func Convert(value any, typ reflect.Type) (any, error) { //nolint: gocyclo
 	if value == nil && typ.Kind() == reflect.Interface {
 		return nil, nil
 	}
+	// a nil pointer is nil
+	if rv.Kind() == reflect.Ptr && rv.IsNil() && typ.Kind() == reflect.Interface {
+		return nil, nil
+	}
 	// a pointer (*time.Time, *int) converts as what it points to
 	if rv.Kind() == reflect.Ptr && !rv.IsNil() && !rv.Type().AssignableTo(typ) && typ.Kind() != reflect.Interface {
 		return Convert(rv.Elem().Interface(), typ)
